@@ -147,15 +147,20 @@ def gen(seed, index, tier):
     if rng.random() < 0.1:
         # a storm on one archive: many workers rebuild and rewrite the same index cache files at once
         storm = []
-        for _ in range(rng.choice([10, 12, 16])):
+        menu_storm = rng.random() < 0.4
+        for _ in range(rng.choice([10, 12, 16]) if not menu_storm else rng.choice([6, 8, 10])):
             kind = rng.choice(["zip-member", "zip-member", "zip-listing", "zip-html-a", "zip-web-listing"])
+            if menu_storm:
+                # everybody asks for the same cold directory: many scans and cache writes at once
+                kind = rng.choice(["menu", "menu", "menu", "menu-via-symlink", "stale-links"])
             storm.append({"kind": kind, "proto": rng.choice(["gopher", "http", "gopher+", "gemini"]),
                           "net": {"role": "normal", "at": 0.0, "segments": [], "delays": [0.0]}})
         sc["bursts"] = [storm]
         sc["servertype"] = st = rng.choice(["ForkingTCPServer", "ForkingTCPServer", "ThreadingTCPServer"])
         sc["preempt_p"] = 0.0
-        sc["policy"] = "random"
-        sc["focus"] = "io"
+        # uniform choice keeps all workers in step; priorities let one run far ahead of the others
+        sc["policy"] = "random" if not menu_storm else rng.choice(["random", "pct", "pct", "sticky"])
+        sc["focus"] = "io" if not menu_storm else rng.choice(["io", "cache", "mixed"])
         sc["trace_hot"] = False
         sc["storm"] = True
     elif st == "ForkingTCPServer" and rng.random() < 0.06:
